@@ -419,7 +419,9 @@ class Parallel:
                         for result in self._run_callbacks(in_thread_result)
                     ]
 
-                if not pool:
+                if not pool and done_queue.empty():
+                    # all workers have exited (their queue feeders are flushed on exit),
+                    # leave only after every queued result has been delivered
                     break
 
                 for name in retired_workers:
